@@ -229,9 +229,29 @@ def msg_match(model_msg, text):
     return text == model_msg
 
 
-def run(prop, cfg, seed, n=150):
+def directed(prop, cfg, n=5000, cap=80):
+    """Compile-ready items (valid, invalid and malformed) on which hook and model disagree about the outcome or the
+    message: the inputs on which the code no longer validates like the model."""
+    import engine
     zero = cfg in ('zeroize', 'zod', 'safe-zod')
-    named = items_for(prop, seed, n, zero)
+    cands = items_for(prop, 424242, n, zero)
+    view = [getattr(it, 'model_view', it) for _, it in cands]
+    hook, log = runner.run_hook(cfg, ['2 ' + it.rust() for it in view], tag='-%s-cdirected' % prop)
+    if hook is None:
+        return []
+    model = runner.run_model('expand', cfg, [it.sexp() for it in view])
+    out = []
+    for (stream, it), h, m in zip(cands, hook, model):
+        ho, mo = engine.outcome(h), engine.outcome(m)
+        if ho != mo or (ho == 'err' and not engine.err_agree(h, m)) or (ho == 'ok' and h != m):
+            out.append(('directed-' + stream, it))
+    out.sort(key=lambda x: len(x[1].rust1()))
+    return out[:cap]
+
+
+def run(prop, cfg, seed, n=150, named=None):
+    zero = cfg in ('zeroize', 'zod', 'safe-zod')
+    named = named if named is not None else items_for(prop, seed, n, zero)
     pred = predict(cfg, named)
     d = os.path.join(runner.WORK, 'diag-%s-%s' % (prop, cfg))
     os.makedirs(os.path.join(d, 'src'), exist_ok=True)
